@@ -5,6 +5,7 @@ package main
 import (
 	"bytes"
 	"fmt"
+	"runtime"
 	"sort"
 	"strings"
 
@@ -31,6 +32,7 @@ type Drv struct {
 
 	ReaderFailAfter int // -1 none
 	ReaderCancelAt  int // -1 none
+	CbGoexitAt      int // > 0: the callback ends its goroutine (runtime.Goexit, what t.FailNow / t.Fatal do) at that call
 	ReaderBlockAt   int // > 0: the reader delivers that many bytes, then blocks until the call has returned
 	WriterFailAt    int
 	WriterShort     bool
@@ -240,6 +242,9 @@ func (r *DrvRun) Body() {
 		r.Rows = append(r.Rows, cbRow{mc.CurrentThread(), sut.FromWalker(wn)})
 		if d.CbFailAt > 0 && calls >= d.CbFailAt {
 			return errCallback
+		}
+		if d.CbGoexitAt > 0 && calls == d.CbGoexitAt {
+			runtime.Goexit()
 		}
 		return nil
 	}
